@@ -400,12 +400,19 @@ def gen_unicode(tier, functional):
     fixed array, which avoids UTF-8 decoding of symbolic bytes: every escape with the listed number of hex digits denotes
     exactly that code point (or is an error when it is not a scalar value) and consumes exactly through the closing brace."""
     hs = []
-    for d in ((2,) if tier == "quick" else (1, 2, 3, 4)):
-        decl = "".join(f"let h{i} = inp.u8(); assume(ishex_u(h{i})); " for i in range(d))
-        items = ", ".join(["(0usize, '{')"] + [f"({i + 1}usize, h{i} as char)" for i in range(d)] + [f"({d + 1}usize, '}}')", f"({d + 2}usize, 'x')"])
+    # (concrete leading digits, number of symbolic digits): from_str_radix over more than four symbolic digits does not finish,
+    # so the 5-, 6- and 7-digit escapes (planes 1-16, zero-padded spellings, values past U+10FFFF) keep their leading digits
+    # concrete - the iterator protocol (where the escape ends, what is left for the caller) is the same code whatever they are.
+    shapes = ([("", 2), ("10FF", 2)] if tier == "quick" else
+              [("", 1), ("", 2), ("", 3), ("", 4), ("1F6", 2), ("0000", 2), ("10FF", 2), ("11000", 1), ("00000", 2)])
+    for prefix, nsym in shapes:
+        d = len(prefix) + nsym
+        decl = "".join(f"let h{i} = inp.u8(); assume(ishex_u(h{i})); " for i in range(nsym))
+        digs = [f"b'{c}'" for c in prefix] + [f"h{i}" for i in range(nsym)]
+        items = ", ".join(["(0usize, '{')"] + [f"({i + 1}usize, {g} as char)" for i, g in enumerate(digs)] + [f"({d + 1}usize, '}}')", f"({d + 2}usize, 'x')"])
         cp = "0u32"
-        for i in range(d):
-            cp = f"({cp} * 16 + hexval_u(h{i}))"
+        for g in digs:
+            cp = f"({cp} * 16 + hexval_u({g}))"
         check = (f"let cp = {cp}; match char::from_u32(cp) {{ Some(c) => assert!(matches!(&r, Ok(x) if *x == c)), None => assert!(r.is_err()) }}\n"
                  "        assert!(matches!(it.next(), Some((_, 'x'))));") if functional else ""
         body = f"""
@@ -416,8 +423,8 @@ def gen_unicode(tier, functional):
         show("result", &r);
         {check}
         std::mem::forget(r);"""
-        h = Harness(f"{'c08' if functional else 'c06'}_parse_unicode_{d}digits", body, unwind=d + 10, stubs=[("alloc::fmt::format", "stub_format_u")],
-                    heavy=True, mandatory=False, meta={"escape": f"\\u{{<{d} hex digits>}}", "function": "parse::unescape::parse_unicode"})
+        h = Harness(f"{'c08' if functional else 'c06'}_parse_unicode_{d}digits" + (f"_{prefix}" if prefix else ""), body, unwind=d + 10, stubs=[("alloc::fmt::format", "stub_format_u")],
+                    heavy=True, mandatory=False, meta={"escape": f"\\u{{{prefix}<{nsym} hex digits>}}", "function": "parse::unescape::parse_unicode"})
         h.file = UNESCAPE_RS
         hs.append(h)
     return UNI_PRE, hs
